@@ -507,7 +507,7 @@ def _targets(st):
 
 
 def slice_kernel(modname, qualname, names, guards=True, space=None,
-                 provided=None):
+                 provided=None, outputs=None):
     """AST slicer: from the function `qualname` of repo module `modname`
     extract, in source order (top level of the function body), the
     assignments whose targets are all in `names` and (guards=True) the
@@ -518,15 +518,44 @@ def slice_kernel(modname, qualname, names, guards=True, space=None,
     provided: names the caller puts into env.  When given, helper names that
     the picked statements read and that are neither wanted, provided, module
     globals nor builtins are resolved by also picking their (top-level,
-    single-name) assignments -- a dependency closure in source order."""
+    single-name) assignments -- a dependency closure in source order.
+    outputs: {name: matcher}; matcher(call_node) returns the argument
+    expression of a call that is the observable result (e.g. the length
+    handed to createDimension('TSTEP', ...)); the slice then assigns that
+    expression to `name` at the place of the call, which makes the slice
+    independent of how the function names its locals."""
     node, path = get_function_ast(modname, qualname)
     picked = []
     found = set()
+    synth = []
+    for oname, matcher in (outputs or {}).items():
+        hit = None
+        for st in node.body:
+            for c in ast.walk(st):
+                if isinstance(c, ast.Call):
+                    e = matcher(c)
+                    if e is not None:
+                        hit = (st, e)
+        if hit is None:
+            raise HarnessError('AST slice of %s.%s: no call matches output '
+                               '%s' % (modname, qualname, oname))
+        a = ast.Assign(targets=[ast.Name(id=oname, ctx=ast.Store())],
+                       value=hit[1])
+        ast.copy_location(a, hit[0])
+        a.lineno = hit[0].lineno
+        a._synthetic = True
+        synth.append(a)
+        found.add(oname)
     def assigned_in(block):
         out = []
         for b in block:
             if isinstance(b, ast.If):
                 out += assigned_in(b.body) + assigned_in(b.orelse)
+            elif isinstance(b, ast.With):
+                for it in b.items:
+                    if isinstance(it.optional_vars, ast.Name):
+                        out.append(it.optional_vars.id)
+                out += assigned_in(b.body)
             else:
                 t = _targets(b)
                 if not t and not isinstance(b, (ast.Pass, ast.Expr)):
@@ -558,9 +587,11 @@ def slice_kernel(modname, qualname, names, guards=True, space=None,
     if missing:
         raise HarnessError('AST slice of %s.%s: no assignment to %s' % (
             modname, qualname, sorted(missing)))
+    picked += synth
     if provided is not None:
         import builtins as _bi
-        known = set(names) | set(provided) | set(dir(_bi)) | found
+        known = set(names) | set(provided) | set(dir(_bi)) | \
+            (found - set(outputs or {}))
         known |= set((space or TwinSpace()).twin(modname).__dict__)
         changed = True
         while changed:
@@ -574,8 +605,8 @@ def slice_kernel(modname, qualname, names, guards=True, space=None,
                 for st in node.body:
                     if st in picked:
                         continue
-                    if isinstance(st, ast.If):
-                        inner = assigned_in(st.body) + assigned_in(st.orelse)
+                    if isinstance(st, (ast.If, ast.With)):
+                        inner = assigned_in([st])
                         hit = inner and None not in inner and nm in inner
                     else:
                         hit = nm in _targets(st)
@@ -583,7 +614,38 @@ def slice_kernel(modname, qualname, names, guards=True, space=None,
                         picked.append(st)
                         changed = True
                 known.add(nm)
-        picked.sort(key=lambda st: st.lineno)
+        # method calls on objects the slice itself creates (f.seek(0, 2)
+        # between f = open(...) and size = f.tell())
+        made = set()
+        for st in picked:
+            if isinstance(st, ast.Assign) and isinstance(st.value, ast.Call):
+                made |= set(_targets(st))
+        for st in node.body:
+            if st not in picked and isinstance(st, ast.Expr) and \
+                    isinstance(st.value, ast.Call) and \
+                    isinstance(st.value.func, ast.Attribute) and \
+                    isinstance(st.value.func.value, ast.Name) and \
+                    st.value.func.value.id in made and \
+                    st.value.func.value.id not in (provided or ()):
+                picked.append(st)
+        if guards:
+            # raise-only ifs over names the slice computes
+            assigned = set()
+            for st in picked:
+                assigned |= set(t for t in (
+                    assigned_in([st]) if isinstance(st, ast.If)
+                    else _targets(st)) if t)
+            for st in node.body:
+                if st in picked or not isinstance(st, ast.If) or \
+                        st.orelse or not all(isinstance(b, ast.Raise)
+                                             for b in st.body):
+                    continue
+                used = set(n.id for n in ast.walk(st.test)
+                           if isinstance(n, ast.Name))
+                if used & assigned and used <= (assigned | known):
+                    picked.append(st)
+        picked.sort(key=lambda st: (st.lineno,
+                                    1 if getattr(st, '_synthetic', 0) else 0))
     clsname = qualname.split('.')[-2] if '.' in qualname else None
     mod = ast.Module(body=picked, type_ignores=[])
     mod = _Rewrite().visit(mod)
@@ -627,21 +689,25 @@ def find_assign_values(modname, qualname, want):
     node, path = get_function_ast(modname, qualname)
     found = {}
     for st in ast.walk(node):
-        if not isinstance(st, ast.Assign) or len(st.targets) != 1:
+        if not isinstance(st, ast.Assign):
             continue
-        t = st.targets[0]
-        key = None
-        if isinstance(t, ast.Name) and t.id in want:
-            key = t.id
-        elif isinstance(t, ast.Subscript) and isinstance(t.value, ast.Name):
-            sl = t.slice
-            if isinstance(sl, ast.Constant) and (t.value.id, sl.value) in want:
-                key = (t.value.id, sl.value)
-        if key is not None and key not in found:
-            expr = ast.Expression(body=_Rewrite().visit(st.value))
-            ast.fix_missing_locations(expr)
-            found[key] = (compile(expr, path + ':<expr>', 'eval'),
-                          ast.unparse(st))
+        for t in st.targets:        # chained  a = b = value  included
+            key = None
+            if isinstance(t, ast.Name) and t.id in want:
+                key = t.id
+            elif isinstance(t, ast.Subscript) and \
+                    isinstance(t.value, ast.Name):
+                sl = t.slice
+                if isinstance(sl, ast.Constant) and \
+                        (t.value.id, sl.value) in want:
+                    key = (t.value.id, sl.value)
+            if key is not None and key not in found:
+                import copy
+                expr = ast.Expression(body=_Rewrite().visit(
+                    copy.deepcopy(st.value)))
+                ast.fix_missing_locations(expr)
+                found[key] = (compile(expr, path + ':<expr>', 'eval'),
+                              ast.unparse(st))
     missing = [w for w in want if w not in found]
     if missing:
         raise HarnessError('AST finder %s.%s: no assignment to %r' % (
